@@ -21,9 +21,10 @@ pub uninterp spec fn the_class(n: &Node) -> Option<&ClassType>;
 #[verifier::external_body] pub fn the_class_of(n: &Node) -> (r: Option<&ClassType>) ensures r == the_class(n) { unimplemented!() }
 pub trait VerifTy { fn get_type_recursively(&self) -> &TypeLayout; }
 impl VerifTy for TypeLayout { #[verifier::external_body] fn get_type_recursively(&self) -> (r: &TypeLayout) ensures *r == resolved(*self) { unimplemented!() } }
-// expected.eq_complex(supplied, use_class(..).lhs_unwrap(true)): the comparison a return site performs
-pub uninterp spec fn ret_fits(expected: TypeLayout, supplied: TypeLayout, n: &Node) -> bool;
-#[verifier::external_body] pub fn ret_eq_complex(expected: &TypeLayout, supplied: &TypeLayout, n: &Node) -> (r: bool) ensures r == ret_fits(*expected, *supplied, n) { unimplemented!() }
+// expected.eq_complex(supplied, use_class(..).lhs_unwrap(b)): the compatibility test, with the flag that additionally lets an OPTIONAL supplied
+// type stand for its payload (`int?` where `int` is expected) -- a returned value must fit WITHOUT that: a `T?` may be nil
+pub uninterp spec fn ret_fits(expected: TypeLayout, supplied: TypeLayout, n: &Node, unwrap_supplied_optional: bool) -> bool;
+#[verifier::external_body] pub fn ret_eq_complex(expected: &TypeLayout, supplied: &TypeLayout, n: &Node, unwrap_supplied_optional: bool) -> (r: bool) ensures r == ret_fits(*expected, *supplied, n, unwrap_supplied_optional) { unimplemented!() }
 pub struct ReturnStatement(pub Option<Value>);
 pub fn first_child(n: &Node) -> (r: Option<Node>) ensures node_children(n).len() == 0 ==> r is None, node_children(n).len() > 0 ==> r == Some(node_children(n)[0]) { let mut c = children(n); c.next() }
 """
@@ -41,8 +42,8 @@ def build(repo):
         Rule("R6", "Self :: value ( value_node ) ?", "parse_value ( value_node ) ?", why="sub-parser abstract"),
         Rule("R6", "value . for_type ( & TypecheckFlags :: use_class ( input . user_data ( ) . get_type_of_executing_class ( ) , ) ) . to_err_vec ( ) ?", "value_for_type ( & value , the_class_of ( & input ) ) ?", why="type query abstract"),
         Rule("R1", "let class_type = input . user_data ( ) . get_type_of_executing_class ( ) ;", "", why="class for the comparison flags: folded into the abstract comparison"),
-        Rule("R6", "! expected_return_type . eq_complex ( & Cow :: Borrowed ( supplied_type ) , & TypecheckFlags :: use_class ( class_type ) . lhs_unwrap ( true ) , )",
-             "! ret_eq_complex ( expected_return_type , supplied_type , & input )", why="compatibility test abstract (flags: use_class(..).lhs_unwrap(true))"),
+        Rule("R6", "! expected_return_type . eq_complex ( & Cow :: Borrowed ( supplied_type ) , & TypecheckFlags :: use_class ( class_type ) . lhs_unwrap ( $b ) , )",
+             "! ret_eq_complex ( expected_return_type , supplied_type , & input , $b )", why="compatibility test abstract; its `lhs_unwrap` flag (an optional supplied type may stand for its payload) is kept visible"),
     ], log, "Parser::return_statement")
     check_closed(b, "Parser::return_statement")
     gen = header(log, f"{FILE}: Parser::return_statement") + prelude("parser.rs") + SPEC + f"""
@@ -54,18 +55,32 @@ pub fn return_statement(input: Node, ud: &mut UD) -> (r: Result<ReturnStatement,
         (node_children(&input).len() == 0 && expected_return(&input) is Some) ==> r is Err,
         (node_children(&input).len() == 0 && expected_return(&input) is None) ==> r is Ok && r->Ok_0.0 is None,
         (node_children(&input).len() > 0 && expected_return(&input) is None) ==> r is Err,
-        // wants a value, gets one: accepted only if its type fits the declared return type
+        // wants a value, gets one: accepted only if its type passed the compatibility test against the declared return type (under either reading
+        // of the optional-unwrapping flag; the strict reading is obligation C03.return.strict)
         (r is Ok && node_children(&input).len() > 0) ==> expected_return(&input) is Some && r->Ok_0.0 is Some
             && type_of(&r->Ok_0.0->Some_0, the_class(&input)) is Some
-            && ret_fits(expected_return(&input)->Some_0, resolved(type_of(&r->Ok_0.0->Some_0, the_class(&input))->Some_0), &input),
+            && (ret_fits(expected_return(&input)->Some_0, resolved(type_of(&r->Ok_0.0->Some_0, the_class(&input))->Some_0), &input, false)
+                || ret_fits(expected_return(&input)->Some_0, resolved(type_of(&r->Ok_0.0->Some_0, the_class(&input))->Some_0), &input, true)),
+{{
+{render(b, 1)}
+}}
+
+//@ OBL C03.return.strict
+// the same function: a returned value fits the declared type WITHOUT an optional standing for its payload (`return x` with x: int? from `-> int`
+// may return nil) -- fails while finding D40 is open
+pub fn return_statement_strict(input: Node, ud: &mut UD) -> (r: Result<ReturnStatement, VErr>)
+    ensures
+        (r is Ok && node_children(&input).len() > 0) ==> expected_return(&input) is Some && r->Ok_0.0 is Some
+            && type_of(&r->Ok_0.0->Some_0, the_class(&input)) is Some
+            && ret_fits(expected_return(&input)->Some_0, resolved(type_of(&r->Ok_0.0->Some_0, the_class(&input))->Some_0), &input, false),
 {{
 {render(b, 1)}
 }}
 }} // verus!
 fn main() {{}}
 """
-    return gen, [Obl("C03.return.table", ["C03", "C02"], fn="Parser::return_statement", desc="Parser::return_statement: the wants/gets table (blank return in a typed function, value in a void function, mismatching type are diagnostics); every return marks the innermost scope")], log
+    return gen, [Obl("C03.return.strict", ["C03", "C02"], fn="Parser::return_statement", desc="Parser::return_statement: an accepted value fits the declared return type without optional-unwrapping (known finding D40 while it fails)"), Obl("C03.return.table", ["C03", "C02"], fn="Parser::return_statement", desc="Parser::return_statement: the wants/gets table (blank return in a typed function, value in a void function, mismatching type are diagnostics); every return marks the innermost scope")], log
 
 
 UNITS = [VUnit("c03_return", ["C03", "C02"], "return: wants / gets table and scope marking", build)]
-UNITS[0].assumes = ["pest API, sub-parsers and the enclosing function's declared return status abstract; the compatibility test (eq_complex with lhs_unwrap(true)) uninterpreted; diagnostics dropped"]
+UNITS[0].assumes = ["pest API, sub-parsers and the enclosing function's declared return status abstract; the compatibility test uninterpreted per value of its lhs_unwrap flag; diagnostics dropped"]
